@@ -320,7 +320,7 @@ PROPS = {
                 trust=CORE_TRUST + "; PARTIAL: rayon bridge / MultiZip / splitter and hashbrown's parallel bucket iterator assumed to hand each item to exactly one leaf", technique="Lean 4 proof over arbitrary split trees + differential correspondence check under several pool sizes"),
     "C14": dict(runs=c14_runs, static=True,
                 level="accepts => Sound proved by kernel decision over the whole program family outside the recorded finding (Props/C14.lean), with `accepts` computed from tables re-extracted from the source on every run (every unsafe impl Send/Sync with its bounds, the entry-query signatures, the SubViewable impl table); every program of the family (each pair of view kinds in each position, repeated entry queries, resource views, components outside the registry, each thread-crossing API with Send+Sync / !Sync / !Send payloads; conflicting programs next to conflict-free twins) is instantiated as Rust source and compiled by rustc against the current tree: verdict compared with `accepts`, and every accepted program checked against `Sound`",
-                trust="Lean kernel + {propext, Classical.choice, Quot.sound}; translator; PARTIAL: rustc's trait solver and borrow checker are the implementation here — the model reproduces their verdict on this family only (157 programs)", technique="Lean 4 proof by kernel decision over a program family, tables generated from the source + rustc verdict correspondence"),
+                trust="Lean kernel + {propext, Classical.choice, Quot.sound}; translator; PARTIAL: rustc's trait solver and borrow checker are the implementation here — the model reproduces their verdict on this family only (253 programs)", technique="Lean 4 proof by kernel decision over a program family, tables generated from the source + rustc verdict correspondence"),
     "C17": dict(runs=fault_runs, static=True,
                 level="mechanism of the clear finding and safety of the length-first order proved on the fault model (Props/C17.lean); fault enumeration on the real crate: for small worlds with multi-column archetypes, every operation that calls user code x callback (Drop, Clone, PartialEq, Debug, Serialize, Deserialize, query body) x position k, each fault point in its own child process: the panic is caught, then a ledger of individually identified values (no value dropped twice), self-checking payloads, the allocator audit and the final drop of every world are checked; (operation, callback) pairs the model table calls safe must show no failure, the others are the recorded findings",
                 trust="Lean kernel + {propext, Classical.choice, Quot.sound}; the table of safe (operation, callback) pairs is hand-written from the code and compared with the enumeration; PARTIAL: unwinding, Vec's internal panic guards and rayon's panic propagation are taken from their documentation, not modelled", technique="Lean 4 proof on a fault model + fault enumeration in child processes with a drop ledger"),
